@@ -78,6 +78,21 @@ def forms(tier):
     for s in 'bwd':
         for m in ('movs', 'cmps', 'stos', 'lods', 'scas'):
             F.append(('%s%s' % (m, s), 'str'))
+    # one register in both operand positions (two writes to one destination: the last one must be the architectural one)
+    F += [('xadd eax, eax', 'rr'), ('xadd dx, dx', 'rr'), ('xadd cl, cl', 'rr'), ('xadd al, ah', 'rr'), ('xchg ebx, ebx', 'rr'), ('xchg bl, bh', 'rr'),
+          ('imul eax, eax', 'rr'), ('imul ebx, ebx, 7', 'rr'), ('shld eax, eax, 4', 'rr'), ('shrd ebx, ebx, 31', 'rr'), ('shld ecx, ecx, cl', 'rc'),
+          ('bt eax, eax', 'rr'), ('bts ebx, ebx', 'rr'), ('btr ecx, ecx', 'rr'), ('btc edx, edx', 'rr'), ('bsf eax, eax', 'rr'), ('bsr ebx, ebx', 'rr'),
+          ('movzx eax, al', 'rr'), ('movsx eax, ah', 'rr'), ('movsx ebx, bx', 'rr'), ('mov al, ah', 'rr'), ('add al, ah', 'rr'), ('sub ah, al', 'rr'),
+          ('lea eax, [eax+eax*2]', 'rr'), ('cmpxchg ecx, ecx', 'ax-rr'), ('cmpxchg eax, eax', 'ax-rr'), ('cmpxchg al, al', 'ax-rr'),
+          ('mul eax', 'ax-r'), ('imul eax', 'ax-r'), ('mul al', 'ax-r'), ('imul dx', 'ax-r'), ('mul edx', 'ax-r'), ('div ecx', 'ax-r')]
+    # stack instructions whose memory operand is addressed through esp (the address uses esp BEFORE the push / AFTER the pop)
+    F += [('push DWORD PTR [esp]', 'stk'), ('push DWORD PTR [esp+4]', 'stk'), ('push DWORD PTR [esp-4]', 'stk'), ('push WORD PTR [esp+2]', 'stk'),
+          ('pop DWORD PTR [esp+4]', 'stk'), ('pop DWORD PTR [esp-4]', 'stk'), ('pop WORD PTR [esp+2]', 'stk'), ('push DWORD PTR [esp+ebx*4]', 'stk-idx'),
+          ('call DWORD PTR [esp]', 'tgt-stk')]
+    # bit instructions with a memory operand and a register bit offset (the addressed dword is base + 4*(offset>>5), signed)
+    for m in ['bt', 'bts', 'btr', 'btc']:
+        F += [('%s DWORD PTR [esi], ebx' % m, 'mbit'), ('%s WORD PTR [esi], bx' % m, 'mbit')]
+        F += [('%s DWORD PTR [esi], 37' % m, 'm'), ('%s DWORD PTR [esi], 255' % m, 'm'), ('%s WORD PTR [esi], 17' % m, 'm')]
     return F
 
 
@@ -191,6 +206,17 @@ def states_for(line, kind, seed):
             if kind == 'leave':
                 regs['ebp'] = cpu.WIN + 0xa0
             add(regs, ('stack', y))
+    elif kind == 'stk-idx':
+        for y in vals[:6]:
+            for k in (0, 1, 2, 0xffffffff):
+                add(dict(base, ebx=k), ('stack', y))
+    elif kind == 'tgt-stk':
+        for y in range(0, 0x400, 0x55):
+            add(dict(base), ('stack', cpu.CODE + 0x900 + y))
+    elif kind == 'mbit':
+        for y in VSMALL:
+            for k in (0, 1, 7, 15, 16, 31, 32, 33, 37, 63, 64, 100, 255, 0x3ff, 0xffffffff, 0xffffffe0, 0xffffffdf, 0xffffff00, 0xfffffe01):
+                add(dict(base, ebx=k), y)
     elif kind == 'popf':
         for bits in itertools.product((0, 1), repeat=7):
             v = 0x202
